@@ -87,7 +87,7 @@ fn stub_from_raw_parts(bytes: serialized::Data<'static, 'static>, recv_seq: u64)
 //           * otherwise the parser is handed EXACTLY (P ++ S)[0 .. total] (byte-identical, right length) with the
 //             given sequence number; exactly max(0, total - |P|) bytes were taken from the socket (never a byte of
 //             the next message); the unconsumed tail of P stays in `already_received_bytes` in order
-// @unit C14.receive_message.framing props=C14 kind=bounded bound=stream<=24-bytes,any-split-into-at-most-3-reads-per-phase fn=zbus::connection::socket::ReadHalf::receive_message timeout=3000
+// @unit C14.receive_message.framing props=C14 kind=bounded bound=stream<=24-bytes,any-split-into-at-most-3-reads-per-phase fn=zbus::connection::socket::ReadHalf::receive_message timeout=3600
 #[cfg(not(verif_skip_c14_receive_message__s40))]
 #[cfg(kani)]
 #[kani::proof]
@@ -160,7 +160,7 @@ fn c14_receive_message__s40() {
 }
 
 // the 128 MiB limit: a header that declares more is rejected WITHOUT reading the body
-// @unit C14.receive_message.max_size props=C14 kind=bounded bound=16-byte-header,any-declared-lengths fn=zbus::connection::socket::ReadHalf::receive_message timeout=1800
+// @unit C14.receive_message.max_size props=C14 kind=bounded bound=16-byte-header,any-declared-lengths fn=zbus::connection::socket::ReadHalf::receive_message timeout=2400
 #[cfg(not(verif_skip_c14_receive_message_max__h16))]
 #[cfg(kani)]
 #[kani::proof]
